@@ -144,7 +144,7 @@ func runC11T(t *testing.T, c c11tCase) kit.Outcome {
 				line = rest
 			}
 		}
-		msg := w.unwind(c.Stack.effTimeout() + 2*time.Second)
+		msg := w.unwind(c.Stack.unwindWait())
 		w.flush()
 		if viol != nil {
 			return *viol
@@ -304,7 +304,7 @@ func runC11A(t *testing.T, c c11aCase) kit.Outcome {
 				}
 			}
 		}
-		msg := w.unwind(c.Stack.effTimeout() + 2*time.Second)
+		msg := w.unwind(c.Stack.unwindWait())
 		w.flush()
 		if viol != nil {
 			return *viol
